@@ -1,0 +1,55 @@
+//go:build verif
+
+package tensor
+
+// Contracts for the mask inspection reducers doMaskAll / doMaskAny (C15). Comment-only.
+//
+// A masked *Dense carries one mask entry per storage position of its window. When the window is exactly the logical
+// content (len(mask) == Size()) the reducers scan the mask; for a non-contiguous view the window is longer than the
+// logical size and only the positions the view addresses count: the reducers then walk a masked iterator. The
+// contracts say: "all" is true exactly when every addressed position is masked, "any" when some addressed position is.
+//
+// IteratorFromDense of a masked tensor (trusted, like the unmasked constructors): a *FlatMaskedIterator over the
+// tensor's mask whose underlying FlatIterator starts at position 0, yields the offset sequence ap_seq of the tensor's
+// access pattern (inside the mask window) and satisfies the stepping routines' representation invariant.
+
+//@ func tensor.IteratorFromDense
+//@   trusted
+//@   let d = asptr("tensor.Dense", tts[0])
+//@   ensures [some] !isnil(result) && fresh(asptr("tensor.FlatIterator", result))
+//@   ensures [start] gh("it_pos", result) == 0
+//@   ensures [in_range] len(tts) == 1 ==> (forall p :: 0 <= p && p < it_len(result) ==> 0 <= it_seq(result, p) && it_seq(result, p) < len(d.Raw) / rsize(d.t))
+//@   ensures [masked] len(tts) == 1 && typeis(tts[0], "*tensor.Dense") && len(d.mask) == len(d.Raw) / rsize(d.t) ==> typeis(result, "*tensor.FlatMaskedIterator") && fresh(asptr("tensor.FlatMaskedIterator", result)) && fresh(asptr("tensor.FlatMaskedIterator", result).FlatIterator) && asptr("tensor.FlatMaskedIterator", result).mask == d.mask && gh("it_pos", asptr("tensor.FlatMaskedIterator", result).FlatIterator) == 0 && it_len(asptr("tensor.FlatMaskedIterator", result).FlatIterator) == ap_len(d.AP) && (forall k :: 0 <= k && k < ap_len(d.AP) ==> it_seq(asptr("tensor.FlatMaskedIterator", result).FlatIterator, k) == ap_seq(d.AP, k))
+//@   ensures [masked_inv] len(tts) == 1 && typeis(tts[0], "*tensor.Dense") && len(d.mask) == len(d.Raw) / rsize(d.t) ==> (!asptr("tensor.FlatMaskedIterator", result).FlatIterator.isScalar && !asptr("tensor.FlatMaskedIterator", result).FlatIterator.isVector ==> len(asptr("tensor.FlatMaskedIterator", result).FlatIterator.shape) >= 1 && itInv(asptr("tensor.FlatMaskedIterator", result).FlatIterator) && asptr("tensor.FlatMaskedIterator", result).FlatIterator.track.arr != asptr("tensor.FlatMaskedIterator", result).FlatIterator.shape.arr && asptr("tensor.FlatMaskedIterator", result).FlatIterator.track.arr != asptr("tensor.FlatMaskedIterator", result).FlatIterator.strides.arr) && (asptr("tensor.FlatMaskedIterator", result).FlatIterator.isVector ==> 0 <= asptr("tensor.FlatMaskedIterator", result).FlatIterator.veclikeDim && asptr("tensor.FlatMaskedIterator", result).FlatIterator.veclikeDim < len(asptr("tensor.FlatMaskedIterator", result).FlatIterator.track)) && asptr("tensor.FlatMaskedIterator", result).mask.arr != asptr("tensor.FlatMaskedIterator", result).FlatIterator.track.arr
+//@   assigns nothing
+
+//@ func tensor.doMaskAll
+//@   props C15
+//@   config devirt tensor.Tensor=*tensor.Dense,tensor.Iterator=*tensor.FlatMaskedIterator
+//@   config panics allowed
+//@   config frame any
+//@   let d = asptr("tensor.Dense", T)
+//@   let n = len(asptr("tensor.Dense", T).Raw) / rsize(asptr("tensor.Dense", T).t)
+//@   requires [dyn] typeis(T, "*tensor.Dense") && T.val != 0
+//@   requires [nonempty] n >= 1
+//@   requires [addressed] forall p :: 0 <= p && p < ap_len(d.AP) ==> 0 <= ap_seq(d.AP, p) && ap_seq(d.AP, p) < n
+//@   ensures [unmasked] old(len(d.mask) != n) ==> unbox("bool", result) == false
+//@   ensures [covering] old(len(d.mask) == n && n == prodInts(d.shape, len(d.shape))) ==> (unbox("bool", result) <==> old(forall i :: 0 <= i && i < len(d.mask) ==> d.mask[i]))
+//@   ensures [view] old(len(d.mask) == n && n != prodInts(d.shape, len(d.shape))) ==> (unbox("bool", result) <==> old(forall p :: 0 <= p && p < ap_len(d.AP) ==> d.mask[ap_seq(d.AP, p)]))
+//@   loop 0 invariant [seen] 0 <= _i && _i <= len(d.mask) && (forall i :: 0 <= i && i < _i ==> d.mask[i])
+
+
+//@ func tensor.doMaskAny
+//@   props C15
+//@   config devirt tensor.Tensor=*tensor.Dense,tensor.Iterator=*tensor.FlatMaskedIterator
+//@   config panics allowed
+//@   config frame any
+//@   let d = asptr("tensor.Dense", T)
+//@   let n = len(asptr("tensor.Dense", T).Raw) / rsize(asptr("tensor.Dense", T).t)
+//@   requires [dyn] typeis(T, "*tensor.Dense") && T.val != 0
+//@   requires [nonempty] n >= 1
+//@   requires [addressed] forall p :: 0 <= p && p < ap_len(d.AP) ==> 0 <= ap_seq(d.AP, p) && ap_seq(d.AP, p) < n
+//@   ensures [unmasked] old(len(d.mask) != n) ==> unbox("bool", result) == false
+//@   ensures [covering] old(len(d.mask) == n && n == prodInts(d.shape, len(d.shape))) ==> (unbox("bool", result) <==> old(exists i :: 0 <= i && i < len(d.mask) && d.mask[i]))
+//@   ensures [view] old(len(d.mask) == n && n != prodInts(d.shape, len(d.shape))) ==> (unbox("bool", result) <==> old(exists p :: 0 <= p && p < ap_len(d.AP) && d.mask[ap_seq(d.AP, p)]))
+//@   loop 0 invariant [seen] 0 <= _i && _i <= len(d.mask) && (forall i :: 0 <= i && i < _i ==> !d.mask[i])
